@@ -1,5 +1,7 @@
 package p9p
 
+import "sync"
+
 // Litmus harnesses: small programs with known outcomes that validate the
 // engine itself (DESIGN.md section 4).
 
@@ -44,4 +46,112 @@ func VerifLitmusForks() {
 		}
 	}
 	vObserve("n", n)
+}
+
+// ---- scheduler litmus tests: the set of observable outcomes must not depend
+// on the sleep-set reduction (symgo run -outcomes, with and without -sleep).
+
+func VerifLitmusSched1() {
+	c := make(chan int)
+	go func() { c <- 1 }()
+	go func() { c <- 2 }()
+	a := <-c
+	b := <-c
+	vObserve("order", a*10+b)
+}
+
+func VerifLitmusSched2() {
+	var mu sync.Mutex
+	x := 0
+	done := make(chan bool)
+	for i := 0; i < 2; i++ {
+		go func(i int) {
+			mu.Lock()
+			t := x
+			mu.Unlock()
+			mu.Lock()
+			x = t + i + 1
+			mu.Unlock()
+			done <- true
+		}(i)
+	}
+	<-done
+	<-done
+	vObserve("x", x)
+}
+
+func VerifLitmusSched3() {
+	a := make(chan int, 1)
+	b := make(chan int, 1)
+	a <- 1
+	b <- 2
+	r := 0
+	select {
+	case v := <-a:
+		r = v
+	case v := <-b:
+		r = v
+	}
+	vObserve("r", r)
+}
+
+func VerifLitmusSched4() {
+	// producer/consumer with close; consumer uses select with default
+	c := make(chan int, 2)
+	stop := make(chan struct{})
+	res := make(chan int)
+	go func() {
+		c <- 1
+		c <- 2
+		close(stop)
+	}()
+	go func() {
+		sum := 0
+		for {
+			select {
+			case v := <-c:
+				sum += v
+			case <-stop:
+				select {
+				case v := <-c:
+					sum += v * 10
+				default:
+				}
+				res <- sum
+				return
+			}
+		}
+	}()
+	vObserve("sum", <-res)
+}
+
+func VerifLitmusSched5() {
+	// three goroutines, two channels, a shared map protected by a mutex
+	var mu sync.Mutex
+	order := 0
+	a := make(chan int)
+	b := make(chan int)
+	done := make(chan bool, 3)
+	go func() { mu.Lock(); order = order*10 + 1; mu.Unlock(); a <- 1; done <- true }()
+	go func() { v := <-a; mu.Lock(); order = order*10 + 2 + v - 1; mu.Unlock(); b <- 1; done <- true }()
+	go func() { mu.Lock(); order = order*10 + 3; mu.Unlock(); <-b; done <- true }()
+	<-done
+	<-done
+	<-done
+	vObserve("order", order)
+}
+
+func VerifLitmusDeadlock() {
+	var mu sync.Mutex
+	mu.Lock()
+	mu.Lock()
+}
+
+func VerifLitmusRace() {
+	x := 0
+	done := make(chan bool)
+	go func() { x = 1; done <- true }()
+	x = 2
+	<-done
+	vObserve("x", x)
 }
